@@ -885,11 +885,26 @@ func c01ProductPrecision(c *core.Ctx) {
 					return true
 				}
 				fn := core.Callee(info, call)
-				if !isAmountMethod(fn, "Rescale") && !isAmountMethod(fn, "RescaleUp") {
+				// rescaled: (the amount, the target precision as text) of Amount.Rescale[Up](e) and of the
+				// currency definition's wrappers def.Rescale[Up](amount) = amount.Rescale[Up](def.Subunits)
+				rescaled := func(cl *ast.CallExpr) (ast.Expr, string, bool) {
+					f := core.Callee(info, cl)
+					if f == nil || len(cl.Args) != 1 || (f.Name() != "Rescale" && f.Name() != "RescaleUp") {
+						return nil, "", false
+					}
+					if isAmountMethod(f, f.Name()) {
+						return core.RecvExpr(cl), types.ExprString(ast.Unparen(cl.Args[0])), true
+					}
+					if r := core.RecvNamed(f); r != nil && core.TypeName(r) == "currency.Def" {
+						return cl.Args[0], types.ExprString(ast.Unparen(core.RecvExpr(cl))) + ".Subunits", true
+					}
+					return nil, "", false
+				}
+				amt, target, isRescale := rescaled(call)
+				if !isRescale {
 					return true
 				}
-				target := types.ExprString(ast.Unparen(call.Args[0]))
-				for _, src := range valueSources(info, ld, core.RecvExpr(call), 0) {
+				for _, src := range valueSources(info, ld, amt, 0) {
 					prod, ok := ast.Unparen(src).(*ast.CallExpr)
 					if !ok || !rounding(core.Callee(info, prod)) {
 						continue
@@ -910,8 +925,7 @@ func c01ProductPrecision(c *core.Ctx) {
 						if !ok || len(oc.Args) != 1 {
 							continue
 						}
-						ofn := core.Callee(info, oc)
-						if (isAmountMethod(ofn, "RescaleUp") || isAmountMethod(ofn, "Rescale")) && types.ExprString(ast.Unparen(oc.Args[0])) == target {
+						if _, t2, ok := rescaled(oc); ok && t2 == target {
 							raised = true
 						}
 					}
